@@ -184,12 +184,12 @@ Proof.
     unfold op_uidcopy. fold s. destruct (resolve_uids s sel set) as [|u us]; [exact Hid|].
     destruct (find_name s dest) as [dm|]; [|exact Hid].
     unfold run_steps. cbn [fold_left exec]. fold s.
-    destruct (uidcopy_loop s sel (mb_id dm) (u :: us) (max_uid s (mb_id dm) + 1)); [reflexivity|exact Hid].
+    destruct (uidcopy_loop s sel (mb_id dm) (u :: us) (mb_next dm)); [reflexivity|exact Hid].
   - (* copy *)
     unfold op_copy. fold s. destruct (resolve_seqs s sel set) as [|u us]; [exact Hid|].
     destruct (find_name s dest) as [dm|]; [|exact Hid].
     unfold run_steps. cbn [fold_left exec]. fold s.
-    destruct (copy_loop s sel (mb_id dm) (u :: us) (max_uid s (mb_id dm) + 1)); [reflexivity|exact Hid].
+    destruct (copy_loop s sel (mb_id dm) (u :: us) (mb_next dm)); [reflexivity|exact Hid].
   - (* uid store *) unfold op_uidstore. cbn [fst]. apply store_fold.
   - (* expunge *) unfold op_expunge. cbn [fst]. now apply expunge_refines.
   - (* close *) unfold op_close, op_expunge. cbn [fst]. now apply expunge_refines.
@@ -229,7 +229,7 @@ Proof.
       destruct (create_mailbox_row s b t) as [[s1 nid]|] eqn:Cr; [|exact Hid].
       unfold run_steps. cbn [fold_left]. rewrite exec_ins_mailbox by auto. fold s. rewrite Cr.
       cbn [option_map fst opt_st exec d_st with_st].
-      destruct (reparent s1 (mb_id ib) nid); reflexivity.
+      destruct (reparent (set_next s1 nid (mb_next ib)) (mb_id ib) nid); reflexivity.
     + destruct (find_name s a) as [m|]; [|exact Hid].
       destruct (find_name s b); [exact Hid|].
       cbn [rename_plain] in Hp. apply negb_true_iff in Hp.
